@@ -180,7 +180,7 @@ Proof.
   intros t0 L pre cs blks x st st' HS HL Hpy. unfold wm_fsr_summary_close.
   pose proof HS as (HR & HF & Hout).
   destruct (wm_f_get_level (wm_fx_fsr x) (N.of_nat L)) as [lv|] eqn:Elv.
-  - destruct (rf_sim_wr_summary summN d pos0 t0 L Hpos0 Hsid Hg_idx Hg_sum (16 - L) L wm_level_count pre cs blks x st st' lv HS
+  - destruct (rf_sim_wr_summary summ1 summN d pos0 t0 L Hpos0 Hsid Hg_idx Hg_sum (16 - L) L wm_level_count pre cs blks x st st' lv HS
                ltac:(lia) ltac:(lia) eq_refl ltac:(change wm_level_count with 16%nat; lia) Elv Hpy) as (cs' & HS').
     exists cs'. destruct HS' as (HR' & HF' & Hout').
     split; [|split; [exact HF'|exact Hout']].
